@@ -18,10 +18,10 @@ ID = "C10"
 RULE = ("simple loop-free graphs: every atlas graph with <= 6 vertices (sampled), G(n,p) n <= 14 with p in {.2,.35,.5,.7,.9}, planted structures "
         "(chains of K_k sharing an edge, K_k u K_k sharing K_{k-1}, wheels, K_n n<=8, books, rings of K4), isolated vertices sometimes kept; "
         "max_size in {0,2,3,4,5}; schedules: shuffle -> identity, reverse, 3 seeds, and every relative order of the largest cliques when there are "
-        "<= 5 of them; non-trivial = >= 2 overlapping cliques of size >= 3; distinct = SHA-1 of (graph, max_size)")
+        "<= 5 of them; in half of the cases the same graph object is then rewired in place (degree-preserving double edge swaps) and covered again; non-trivial = >= 2 overlapping cliques of size >= 3; distinct = SHA-1 of (graph, max_size)")
 ASSUMPTIONS = ["vertex ids are non-negative ints (label parsing splits on '-')", "ids need not be dense; member order inside a label is free"]
-HEADLINE = ["runs", "graphs", "edges_labelled", "cliques_checked_for_maximality", "top_order_enumerations", "limit_cases", "shuffle_hook_seen", "isolated_vertex_graphs"]
-REQUIRED = {t: {"runs": 500, "cliques_checked_for_maximality": 2000, "top_order_enumerations": 20, "limit_cases": 50, "shuffle_hook_seen": 100}
+HEADLINE = ["runs", "graphs", "edges_labelled", "cliques_checked_for_maximality", "top_order_enumerations", "limit_cases", "shuffle_hook_seen", "isolated_vertex_graphs", "recover_after_in_place_rewiring"]
+REQUIRED = {t: {"runs": 500, "cliques_checked_for_maximality": 2000, "top_order_enumerations": 20, "limit_cases": 50, "shuffle_hook_seen": 100, "recover_after_in_place_rewiring": 30}
             for t in ("quick", "thorough")}
 
 
@@ -128,6 +128,30 @@ def run_case(case):
             res.violate("did-not-return-a-graph", got=repr(out)[:100], ctx=base); break
         if not check_cover(res, g0, out, max_size, cliques, dict(base, schedule=[kind, val if kind != "script" else "top-order"])):
             break
+        if kind == "seed" and val == 1 and rng.random() < 0.5 and g.number_of_edges() >= 2:
+            # history: the SAME graph object is rewired in place (degree-preserving double edge swaps, what the MCMC tool does to a
+            # network) and covered again; the second cover must be a cover of the graph as it is now
+            swapped = 0
+            for _ in range(30):
+                es = list(g.edges())
+                (a, b), (c, d) = rng.sample(es, 2)
+                if len({a, b, c, d}) < 4 or g.has_edge(a, d) or g.has_edge(c, b):
+                    continue
+                g.remove_edge(a, b); g.remove_edge(c, d)
+                g.add_edge(a, d); g.add_edge(c, b)
+                swapped += 1
+                if swapped >= 3:
+                    break
+            if swapped:
+                res.count("recover_after_in_place_rewiring")
+                g1 = nx.Graph(); g1.add_nodes_from(g.nodes()); g1.add_edges_from(g.edges())
+                cl1 = list(nx.enumerate_all_cliques(g1))
+                with installed(RandomTap(seed=7, keep_log=False), "mpcc"):
+                    out2 = sut("MPCC (same graph object after in-place rewiring)", gcmpy.MPCC, g, max_size)
+                res.count("runs")
+                if not check_cover(res, g1, out2, max_size, cl1, dict(base, schedule=["seed", 7], history=["MPCC(G)", "%d double edge swaps in place" % swapped, "MPCC(G)"],
+                                                                       edges_now=sorted(tuple(sorted(e)) for e in g1.edges()))):
+                    break
     big = [c for c in cliques if len(c) >= 3]
     res.nontrivial = any(len(set(a) & set(b)) >= 2 for i, a in enumerate(big) for b in big[i + 1:] if not set(a) <= set(b) and not set(b) <= set(a))
     res.sample = base
